@@ -698,6 +698,11 @@ def build(desc, shared=None):
         objs["factors"][name] = f
         return f
 
+    def get_continuous(name):
+        if name not in objs["factors"]:
+            objs["factors"][name] = sp.ContinuousFactor(name, distribution=sp.UniformDistribution(0, 1))
+        return objs["factors"][name]
+
     def get_constraint(c, path):
         key = repr(c) if objs.get("share_constraints_by_value") else (path, repr(c))
         if key in objs["constraints"]:
@@ -746,10 +751,12 @@ def build(desc, shared=None):
         if objs.get("share_lists") and cons:
             # a user who writes `cs = [...]` once and hands the same list to several constructors
             cons = objs.setdefault("lists", {}).setdefault(repr(node.get("constraints")), cons)
+        # optional "continuous": [names] — continuous factors the user declares after the discrete ones (they do not take part in the discrete oracle)
+        cont = [get_continuous(z) for z in node.get("continuous", [])]
         if k == "cross":
-            return framed(sp.CrossBlock, [get_factor(f) for f in node["design"]], [get_factor(f) for f in node["crossing"]], cons, node.get("rcc", True))
+            return framed(sp.CrossBlock, [get_factor(f) for f in node["design"]] + cont, [get_factor(f) for f in node["crossing"]], cons, node.get("rcc", True))
         if k == "multi":
-            return framed(sp.MultiCrossBlock, [get_factor(f) for f in node["design"]], [[get_factor(f) for f in c] for c in node["crossings"]], cons,
+            return framed(sp.MultiCrossBlock, [get_factor(f) for f in node["design"]] + cont, [[get_factor(f) for f in c] for c in node["crossings"]], cons,
                           node.get("rcc", True), mode=node.get("mode", "equal"), alignment=node.get("alignment", "equal preamble"))
         if k == "repeat":
             return framed(sp.Repeat, mk(node["block"], path + "/b"), cons)
